@@ -243,6 +243,7 @@ func runC05(tier string, seed uint64, o *Out) error {
 	// each other and re-synchronise in rejection loops; a far-away state keeps the seeds independent
 	c05NestedShapes(tier, NewRNG(seed*1000003+505), o)
 	c05Concurrent(tier, NewRNG(seed*1000003+515), o)
+	c05Paths(tier, seed, o)
 	return nil
 }
 
